@@ -1,5 +1,5 @@
 (* GENERATED on every run by harness/C12.py translate() with translate/pycoro2coq.py from
-   /tmp/mt-7249-30076/psiaudio/pipeline.py - do not edit.  One pass of each coroutine from (yield) to (yield). *)
+   /repo/psiaudio/pipeline.py - do not edit.  One pass of each coroutine from (yield) to (yield). *)
 From PV Require Import Stages.Model.
 Open Scope Z_scope.
 
@@ -179,7 +179,7 @@ Definition derivative_gen_body {A : Type} (sub : A -> A -> A) (init : A) (initia
     | None => None (* AttributeError: .fs *)
     | Some _ =>
       let outs := outs ++ [np_diff_fs sub samples] in
-      let initial_state := getitem (Some (-1)) None None new_samples in
+      let initial_state := getitem (Some (-1)) None None samples in
       Some (Some initial_state, outs)
     end
   end.
@@ -346,7 +346,7 @@ Definition rms_gen_step {A O : Type} (agg : list A -> O) (s0div : Z -> Z) (s0add
     end
   end.
 
-(* ---------------- pipeline.event_rate (line 1282) ---------------- *)
+(* ---------------- pipeline.event_rate (line 1281) ---------------- *)
 Fixpoint event_rate_gen_loop1  (fuel : nat) (block_size : Z) (block_step : Z) (blocks : list events) (evts : events)
   : option (list events * events) :=
   if ((e_hi evts - e_lo evts) >? block_size) then
@@ -410,7 +410,7 @@ Definition transform_gen_step {A O : Type} (g : A -> O) (st : unit) (chunk : blk
   let outs := outs ++ [map_blk g data] in
   Some (tt, outs).
 
-(* ---------------- pipeline.mc_reference (line 1341) ---------------- *)
+(* ---------------- pipeline.mc_reference (line 1340) ---------------- *)
 Definition mc_reference_gen_init {A O : Type} (g : A -> O) : unit :=
   tt.
 
